@@ -30,17 +30,17 @@ import (
 // Config is the (single-point) configuration of the superfluid scenario; it is copied into every
 // replay artefact.
 type Config struct {
-	EpochSeconds     int64  `json:"epoch_seconds"`     // duration of the epoch the superfluid module follows
-	UnbondingSeconds int64  `json:"unbonding_seconds"` // staking unbonding time = synthetic lock duration
-	PoolOsmo         string `json:"pool_bond_denom"`
-	PoolFoo          string `json:"pool_foo"`
-	SwapFee          string `json:"swap_fee"`
-	MintPerEpoch     int64  `json:"mint_per_epoch"`
+	EpochSeconds     int64     `json:"epoch_seconds"`     // duration of the epoch the superfluid module follows
+	UnbondingSeconds int64     `json:"unbonding_seconds"` // staking unbonding time = synthetic lock duration
+	PoolOsmo         string    `json:"pool_bond_denom"`
+	PoolFoo          string    `json:"pool_foo"`
+	SwapFee          string    `json:"swap_fee"`
+	MintPerEpoch     int64     `json:"mint_per_epoch"`
 	Amounts          [2]string `json:"lock_amounts"` // per owner A, B
-	TopUp            string `json:"topup_amount"`
-	SwapOsmoIn       string `json:"swap_bond_denom_in"`
-	SwapFooIn        string `json:"swap_foo_in"`
-	StartHeight      int64  `json:"seed_height"` // every seed ends at this height (the lockup sweep runs when height%120==0)
+	TopUp            string    `json:"topup_amount"`
+	SwapOsmoIn       string    `json:"swap_bond_denom_in"`
+	SwapFooIn        string    `json:"swap_foo_in"`
+	StartHeight      int64     `json:"seed_height"` // every seed ends at this height (the lockup sweep runs when height%120==0)
 }
 
 func DefaultConfig() Config {
@@ -120,7 +120,7 @@ type LockRec struct {
 type Ledger struct {
 	Locks      []LockRec
 	NextLockID uint64
-	Acct       [2]bool // intermediary account (share denom, val i) has been created
+	Acct       [2]bool  // intermediary account (share denom, val i) has been created
 	Mult       *big.Int // osmo-equivalent multiplier, 18 decimals, as refreshed at the last epoch
 	PoolOsmo   sdkmath.Int
 	Supply0    sdkmath.Int
@@ -161,22 +161,22 @@ func (l *Ledger) digest() []byte {
 
 // World is one application instance with the pool, the superfluid asset and the funded owners.
 type World struct {
-	Env        *core.Env
-	App        *app.OsmosisApp
-	Cfg        Config
-	PoolID     uint64
-	PoolAddr   sdk.AccAddress
-	ShareDenom string
-	BondDenom  string
+	Env         *core.Env
+	App         *app.OsmosisApp
+	Cfg         Config
+	PoolID      uint64
+	PoolAddr    sdk.AccAddress
+	ShareDenom  string
+	BondDenom   string
 	TotalShares sdkmath.Int
-	Funds      map[string]sdkmath.Int // shares each owner was given
-	E, U       time.Duration
-	Risk       *big.Int // MinimumRiskFactor, 18 decimals
-	Mint       sdkmath.Int
-	Mult0      *big.Int
-	Supply0    sdkmath.Int
-	Vac        map[string]int64
-	Extra      map[string]interface{}
+	Funds       map[string]sdkmath.Int // shares each owner was given
+	E, U        time.Duration
+	Risk        *big.Int // MinimumRiskFactor, 18 decimals
+	Mint        sdkmath.Int
+	Mult0       *big.Int
+	Supply0     sdkmath.Int
+	Vac         map[string]int64
+	Extra       map[string]interface{}
 }
 
 func mustInt(s string) sdkmath.Int {
@@ -711,9 +711,9 @@ func (w *World) boundary(ctx sdk.Context, l *Ledger, dt time.Duration, fail func
 
 // Alphabet selects the symbols.
 type Alphabet struct {
-	MaxLocks   int  `json:"max_locks"`   // lock-creating symbols are disabled beyond this many live locks
-	FullUndel  bool `json:"full_undelegate_and_unbond"`
-	Probes     bool `json:"extra_rejection_probes"` // delegate an already delegated lock, unbond a delegated lock, begin-unlock an undelegating lock
+	MaxLocks  int  `json:"max_locks"` // lock-creating symbols are disabled beyond this many live locks
+	FullUndel bool `json:"full_undelegate_and_unbond"`
+	Probes    bool `json:"extra_rejection_probes"` // delegate an already delegated lock, unbond a delegated lock, begin-unlock an undelegating lock
 }
 
 func (w *World) Enabled(al *Alphabet) func(ctx sdk.Context, l *Ledger, depth int) []Op {
